@@ -17,6 +17,7 @@ from .. import core
 from ..session import Run, TracingScript
 from .. import peer as P
 from ..profile import Profile
+from ..budget import Sink
 from . import c10
 
 
@@ -313,6 +314,15 @@ def reactor_trace(enc_mod, seed, nbytes, keybits=1024, conn=None):
         conn = Connection('h', 25565, username='u', allowed_versions={757})
     # (a Connection object handed in has been through a login before: this is its next one, on a new socket)
     conn.socket, conn.file_object = w, w
+    import collections
+    from minecraft.networking.packets import serverbound
+    conn._outgoing_packet_queue = collections.deque()       # (as Connection._connect does for every session)
+    pending = None
+    if seed % 2:
+        # a packet is waiting in the queue when the encryption request is handled (the answer to a plugin request that
+        # came in the same batch, or a write from an application thread): it goes out after the response - encrypted
+        pending = serverbound.login.PluginResponsePacket(message_id=seed % 100, successful=False)
+        conn.write_packet(pending)
     tok = bytes(rng.getrandbits(8) for _ in range(rng.choice([1, 4, 16])))
     pkt = clientbound.login.EncryptionRequestPacket(context=conn.context)
     pkt.server_id, pkt.public_key, pkt.verify_token = '-', der, tok
@@ -333,6 +343,15 @@ def reactor_trace(enc_mod, seed, nbytes, keybits=1024, conn=None):
             secret = b''
         key = secret if len(secret) == 16 else b'\0' * 16
         srv = P.CFB8(key)
+        plain_tail = w.out[rd.i:]               # anything behind the encryption response on the raw wire so far
+        queued_ok = True
+        if pending is not None:
+            before = len(w.out)
+            while conn._pop_packet():           # the networking thread's next write phase
+                pass
+            sink = Sink()
+            pending.write(sink)
+            queued_ok = P.CFB8(key).decrypt(w.out[before:]) == sink.value() and not plain_tail
         sent = recvd = 0
         while sent < nbytes or recvd < nbytes:
             if sent < nbytes and (recvd >= nbytes or rng.random() < 0.4):
@@ -349,7 +368,7 @@ def reactor_trace(enc_mod, seed, nbytes, keybits=1024, conn=None):
                 recvd += k
     ev = events_of(taps.all)
     return {'secret': list(secret), 'key': list(key), 'login': True, 'urandom': [list(u) for u in taps.urandom], 'kl': kl,
-            'blocks': ems, 'token': list(tok), 'ev': ev}
+            'blocks': ems, 'token': list(tok), 'ev': ev, 'plain_tail': plain_tail.hex(), 'queued_ok': queued_ok}
 
 
 def run(chk):
@@ -381,6 +400,9 @@ def run(chk):
     for j in range(n_reactor):
         tr = reactor_trace(enc_mod, chk.seed * 30011 + j, 50 if quick else rng.choice([40, 120]), keybits=2048 if j % 3 == 2 else 1024)
         tr['meta'] = {'kind': 'login-reactor wrappers, mixed read/recv', 'seed': chk.seed * 30011 + j}
+        if tr.pop('plain_tail') or not tr.pop('queued_ok'):
+            chk.violation('cipher:plaintext-after-encryption-response', 'a packet that was queued when the encryption request arrived did not '
+                          'go out as the CFB8 encryption of its frame after the encryption response (login-reactor trace %d)' % j, {'j': j})
         chk.case(('reactor', j))
         traces.append(tr)
     # several logins through one and the same Connection object: each negotiates a secret of its own
@@ -390,6 +412,9 @@ def run(chk):
         for k in range(3):
             tr = reactor_trace(enc_mod, chk.seed * 40013 + g * 7 + k, 24, keybits=1024, conn=shared)
             tr['meta'] = {'kind': 'login %d through one Connection object' % (k + 1), 'group': g}
+            if tr.pop('plain_tail') or not tr.pop('queued_ok'):
+                chk.violation('cipher:plaintext-after-encryption-response', 'a packet that was queued when the encryption request arrived did '
+                              'not go out as the CFB8 encryption of its frame after the encryption response (login %d of group %d)' % (k + 1, g), {'g': g})
             chk.case(('relogin', g, k))
             traces.append(tr)
     total_bytes = sum(len(e['p']) for t in traces for e in t['ev'])
